@@ -1,4 +1,46 @@
-(* placeholder *)
-From Coq Require Import ZArith.
-Theorem C09_placeholder : True. Proof. exact I. Qed.
-Print Assumptions C09_placeholder.
+(* C09 -- the output is the concatenation of the per-item encodings in source order; `align N` pads minimally.
+   Statements only; model = Model/Passes.v (assemble_items), tied to asm.assemble by the pipeline correspondence
+   (per-item blobs observed at resolve_blobs; real output = concatenation of those blobs is checked there). *)
+From Coq Require Import ZArith List String.
+From BB Require Import Base.PyBase Model.Items Model.Passes Proofs.Layout Proofs.LayoutInst Proofs.Pipeline Proofs.Examples.
+Import ListNotations.
+Open Scope Z_scope.
+
+(* Everything the run emits, for programs with `align N`, N >= 1, and unique labels, both modes:
+   pa  = the items before alignment: code items stay code of the same source line, every other item is kept as it is,
+         constant definitions vanish (grouped Rkeep);
+   al  = after resolve_aligns: every item is kept except `align N`, which, standing at OUTPUT offset p, becomes
+         exactly (N - p mod N) mod N zero bytes (pgrouped Ralign: 0 <= pad < N, (p + pad) mod N = 0);
+   fin = the final items: same line, same label-ness, same SIZE as in al (Forall2 same1) -- so offsets in al are final
+         offsets and every size() announced earlier is the size emitted;
+   the chunks are exactly the non-label items of fin, in order, chunk length = item size (blobbed);
+   nothing else is emitted. *)
+Theorem C09_layout :
+  forall its consts0 labels0 compress r,
+    assemble_items its consts0 labels0 compress = Done r -> nonneg its -> NoDup (gnames its) -> layout_facts its r.
+Proof. exact pipeline_layout. Qed.
+Print Assumptions C09_layout.
+
+(* the padding is the MINIMAL one: no smaller non-negative count reaches a multiple of N *)
+Theorem C09_padding_minimal :
+  forall p n k, 1 <= n -> 0 <= k -> (p + k) mod n = 0 -> (n - p mod n) mod n <= k.
+Proof. exact pad_minimal. Qed.
+Print Assumptions C09_padding_minimal.
+
+(* what resolve_aligns does with one item, spelled out *)
+Theorem C09_align_item :
+  forall p l n g, 1 <= n -> Ralign p (l, IAlign n) g ->
+    let pad := (n - p mod n) mod n in
+    g = (if pad =? 0 then [] else [(l, IZeros pad)]) /\ total g = pad /\ 0 <= pad < n /\ (p + pad) mod n = 0.
+Proof. intros p l n g Hn H. destruct (H Hn) as (A & B & C & D & E). repeat split; auto. Qed.
+Print Assumptions C09_align_item.
+
+(* total output size = sum of the chunk lengths = sum of the final item sizes *)
+Theorem C09_total : forall fin cs, blobbed fin cs -> total fin = fold_right (fun c a => chunk_len (snd c) + a) 0 cs.
+Proof. exact blobbed_total. Qed.
+Print Assumptions C09_total.
+
+Example C09_example :
+  nonneg ex_its /\ NoDup (gnames ex_its) /\
+  (exists r, assemble_items ex_its [] [] true = Done r /\ r_labels r = [("a", 0); ("b", 8)]%string).
+Proof. exact (conj ex_nonneg (conj ex_nodup ex_runs_c)). Qed.
